@@ -202,7 +202,7 @@ def import_state(st: Dict[str, Any]) -> None:
 
 def plan(tier: str) -> Dict[str, Any]:
     if tier == "thorough":
-        return {"runs": 400_000, "chunk": 200, "budget_s": 780, "chunk_hard_s": 900, "minimise_s": 90}
+        return {"runs": 400_000, "chunk": 100, "budget_s": 780, "chunk_hard_s": 900, "minimise_s": 90}
     return {"runs": 4_500, "chunk": 50, "budget_s": 50, "chunk_hard_s": 300, "minimise_s": 40}
 
 
